@@ -380,12 +380,25 @@ def main_run(prop, tier, cases, *, functions=(), bounds=None, stubs=(), assumpti
     procs = procs or min(16, max(1, len(pending)))
     results = []
     per_case_paths = collections.Counter()
+    # once this many reproduced violations that no known finding explains are in hand the verdict is settled:
+    # the remaining cases are not explored (never happens on a tree where the property holds)
+    stop_after = int(os.environ.get('SYMX_STOP_AFTER', '40'))
+    known_now = load_known(prop)
+    stop = dict(new=0, stopped=False)
+
+    def _note(r):
+        stop['new'] += sum(1 for v in r['violations'] if match_known(known_now, v) is None)
+        if stop['new'] >= stop_after and not stop['stopped']:
+            stop['stopped'] = True
+            pending.clear()
     if pending:
         if procs == 1:
             while pending:
                 r = _work(pending.popleft())
                 results.append(r)
-                _requeue(r, pending, deadline, cases, per_case_paths, pre_errors)
+                _note(r)
+                if not stop['stopped']:
+                    _requeue(r, pending, deadline, cases, per_case_paths, pre_errors)
         else:
             mp = multiprocessing.get_context('fork')
             with mp.Pool(procs) as pool:
@@ -399,7 +412,9 @@ def main_run(prop, tier, cases, *, functions=(), bounds=None, stubs=(), assumpti
                         if a.ready():
                             r = a.get()
                             results.append(r)
-                            _requeue(r, pending, deadline, cases, per_case_paths, pre_errors)
+                            _note(r)
+                            if not stop['stopped']:
+                                _requeue(r, pending, deadline, cases, per_case_paths, pre_errors)
                             progressed = True
                         else:
                             still.append(a)
@@ -427,7 +442,7 @@ def main_run(prop, tier, cases, *, functions=(), bounds=None, stubs=(), assumpti
         pc['paths'] += r['paths']
         pc['labels'].update(r['labels'])
     # vacuity guard: every case must complete at least one path and state at least one obligation
-    for c in cases:
+    for c in ([] if stop['stopped'] else cases):
         pc = per_case.get(c.name)
         if c.twin and (pc is None or pc['paths'] == 0 or not pc['labels']):
             if not any(v['case'] == c.name for v in violations) and not any(e.startswith(c.name + ':') for e in errors):
@@ -487,7 +502,8 @@ def main_run(prop, tier, cases, *, functions=(), bounds=None, stubs=(), assumpti
         functions_encoded=source_fingerprint(functions),
         bounds=bounds or {},
         stubs=list(stubs),
-        exhaustive_within_bounds=not errors,
+        exhaustive_within_bounds=not errors and not stop['stopped'],
+        stopped_early=stop['stopped'],
         known_findings_reproduced=sorted(known_hit),
         harness_errors=errors[:10],
     )
